@@ -53,51 +53,95 @@ def _eval_isinstance(ctx, test, K, param):
     return None
 
 
-def _collect_writes(ctx, stmts, K, param, dictvar, guards, out):
+def _local_defs(F, wparam):
+    """locals of a writer that stand for an attribute of the record:
+    name -> (attr, codec)."""
+    local_defs = {}
+    for st in ast.walk(F.node):
+        if isinstance(st, ast.Assign) and len(st.targets) == 1 and \
+                isinstance(st.targets[0], ast.Name):
+            v = st.value
+            a, cd = _attr_of_value(v, wparam, {})
+            if a:
+                local_defs[st.targets[0].id] = (a, cd)
+            # [ser(x) for x in <param>.attr]
+            if isinstance(v, (ast.ListComp, ast.GeneratorExp)) and \
+                    not v.generators[0].ifs and isinstance(
+                        v.generators[0].iter, ast.Attribute) and isinstance(
+                            v.generators[0].iter.value, ast.Name) and \
+                    v.generators[0].iter.value.id == wparam:
+                local_defs[st.targets[0].id] = (
+                    v.generators[0].iter.attr, ('per-element',))
+        if isinstance(st, ast.For) and isinstance(st.iter, ast.Attribute) \
+                and isinstance(st.iter.value, ast.Name) and \
+                st.iter.value.id == wparam:
+            for c in ast.walk(st):
+                if isinstance(c, ast.Call) and isinstance(
+                        c.func, ast.Attribute) and c.func.attr == 'append' \
+                        and isinstance(c.func.value, ast.Name):
+                    local_defs[c.func.value.id] = (st.iter.attr,
+                                                   ('per-element',))
+    return local_defs
+
+
+def _writes_for(ctx, K, F=None, depth=0, seen=None):
+    """(key, value, guards, writer function, its record parameter, local
+    defs) for every JSON key written for a record of class K, following
+    the isinstance dispatch from _operation_to_json into helpers (or not,
+    if they were inlined)."""
     from ..astpaths import cond_paths, decided_class
-    paths = cond_paths(stmts)
+    C = ctx.R.cache
+    prog = ctx.prog
+    if F is None:
+        F = ctx.E.func(C + '._operation_to_json')
+        seen = set()
+    if F.qualname in seen or depth > 4:
+        return []
+    seen.add(F.qualname)
+    param = F.params[0]
+    paths = cond_paths(F.node.body)
+    dictvar = set()
     for conds, st in paths:
         if isinstance(st, ast.Assign):
             for t in st.targets:
                 if isinstance(t, ast.Name) and isinstance(st.value, ast.Dict):
                     dictvar.add(t.id)
+    local_defs = _local_defs(F, param)
+    out = []
     for conds, st in paths:
-        if not isinstance(st, ast.Assign):
-            continue
-        ok, other = decided_class(conds, ctx.prog, K, param)
+        ok, other = decided_class(conds, prog, K, param)
         if not ok:
             continue
         gs = [t if pol else ast.UnaryOp(op=ast.Not(), operand=t)
               for t, pol in other]
-        for t in st.targets:
-            if isinstance(t, ast.Name) and isinstance(st.value, ast.Dict):
-                for k, v in zip(st.value.keys, st.value.values):
-                    if isinstance(k, ast.Constant):
-                        out.append((k.value, v, list(gs)))
-            elif (isinstance(t, ast.Subscript) and
-                  isinstance(t.value, ast.Name) and
-                  t.value.id in dictvar and
-                  isinstance(t.slice, ast.Constant)):
-                out.append((t.slice.value, st.value, list(gs)))
-
-
-def _writer_for(ctx, K):
-    """The function that serialises records of class K, found through the
-    isinstance dispatch of _operation_to_json."""
-    from ..astpaths import cond_paths, decided_class
-    C = ctx.R.cache
-    disp = ctx.E.func(C + '._operation_to_json')
-    p = disp.params[0]
-    for conds, st in cond_paths(disp.node.body):
-        ok, other = decided_class(conds, ctx.prog, K, p)
-        if not ok or not conds:
-            continue
-        for n in ast.walk(st):
-            if isinstance(n, ast.Call):
-                for g in ctx.prog.resolve_call(n, disp):
-                    if isinstance(g, Func) and g.cls == C:
-                        return g
-    raise AnalysisError('no writer found for record class ' + K)
+        if isinstance(st, ast.Assign):
+            for t in st.targets:
+                if isinstance(t, ast.Name) and isinstance(st.value, ast.Dict):
+                    for k, v in zip(st.value.keys, st.value.values):
+                        if isinstance(k, ast.Constant):
+                            out.append((k.value, v, list(gs), F, param,
+                                        local_defs))
+                elif (isinstance(t, ast.Subscript) and
+                      isinstance(t.value, ast.Name) and
+                      t.value.id in dictvar and
+                      isinstance(t.slice, ast.Constant)):
+                    out.append((t.slice.value, st.value, list(gs), F, param,
+                                local_defs))
+        if isinstance(st, ast.Return) and isinstance(st.value, ast.Dict):
+            for k, v in zip(st.value.keys, st.value.values):
+                if isinstance(k, ast.Constant):
+                    out.append((k.value, v, list(gs), F, param, local_defs))
+        # delegation to another writer with the record as first argument
+        if isinstance(st, (ast.Return, ast.Assign, ast.Expr)):
+            for n in ast.walk(st):
+                if isinstance(n, ast.Call) and n.args and isinstance(
+                        n.args[0], ast.Name) and n.args[0].id == param:
+                    for g in prog.resolve_call(n, F):
+                        if isinstance(g, Func) and g.cls == C and \
+                                g.name.startswith('_') and \
+                                g.qualname != F.qualname:
+                            out += _writes_for(ctx, K, g, depth + 1, seen)
+    return out
 
 
 def _attr_of_value(v, param, local_defs):
@@ -157,30 +201,9 @@ def r16_1(ctx, rc):
                          'the cache reader never constructs ' + K,
                          reader.file, key='reader constructs ' + K)
             continue
-        W = _writer_for(ctx, K)
-        wparam = W.params[0]
-        writes = []
-        local_defs = {}
-        for st in W.node.body:
-            if isinstance(st, ast.Assign) and isinstance(
-                    st.targets[0], ast.Name):
-                a, cd = _attr_of_value(st.value, wparam, {})
-                if a:
-                    local_defs[st.targets[0].id] = (a, cd)
-        # suboperations are serialised through a loop into a local list
-        for st in ast.walk(W.node):
-            if isinstance(st, ast.For) and isinstance(st.iter, ast.Attribute) \
-                    and isinstance(st.iter.value, ast.Name) and \
-                    st.iter.value.id == wparam:
-                for c in ast.walk(st):
-                    if isinstance(c, ast.Call) and isinstance(
-                            c.func, ast.Attribute) and c.func.attr == 'append' \
-                            and isinstance(c.func.value, ast.Name):
-                        local_defs[c.func.value.id] = (st.iter.attr,
-                                                       ('per-element',))
-        _collect_writes(ctx, W.node.body, K, wparam, set(), [], writes)
         wmap = {}
-        for key, v, gs in writes:
+        W = ctx.E.func(C + '._operation_to_json')
+        for key, v, gs, WF, wparam, local_defs in _writes_for(ctx, K):
             a, cd = _attr_of_value(v, wparam, local_defs)
             if a is None and gs and isinstance(v, ast.Constant):
                 # flag written as a constant under "if <param>.<attr>:"
@@ -189,6 +212,7 @@ def r16_1(ctx, rc):
                         g0.value, ast.Name) and g0.value.id == wparam:
                     a = g0.attr
             wmap[key] = (a, cd, gs, v)
+            W = WF
         call, g = ctor[K]
         binding = prog.bind_args(call, g)
         rmap = {}
@@ -350,15 +374,12 @@ def r16_2(ctx, rc):
         n += 1
         key = 'cache key ' + k.value
         vs = ctx.H.subst(v, W, cn)
-        attr = None
         const = None
         for x in ast.walk(vs):
-            if isinstance(x, ast.Attribute) and isinstance(x.value, ast.Name):
-                if x.value.id == W.self_name:
-                    attr = x.attr
-                elif x.value.id == C:
-                    const = x.attr
-        if const and not attr:
+            if isinstance(x, ast.Attribute) and isinstance(
+                    x.value, ast.Name) and x.value.id == C:
+                const = x.attr
+        if const and isinstance(vs, ast.Attribute):
             # written from a class constant: compared with the same one
             ok = False
             for cmp_ in ast.walk(Rd.node):
@@ -375,47 +396,13 @@ def r16_2(ctx, rc):
                                  k.value, C, const), prog.loc(Rd, Rd.node),
                              key=key)
             continue
-        if attr is None:
-            # rootOperations: a local list built from the maps
-            reads = [r for r in _key_reads(Rd.node) if r[0] == k.value]
-            if reads:
-                rc.ok({'key': k.value, 'via': 'recursive reader'}, key=key)
-            else:
-                rc.violation('cache-key | ' + k.value,
-                             'key %r is written but never read' % k.value,
-                             prog.loc(Rd, Rd.node), key=key)
-            continue
-        # the attribute is written verbatim (or through a listed codec such
-        # as list(<set>)), never filtered or transformed
-        plain = isinstance(vs, ast.Attribute) or (
-            isinstance(vs, ast.Call) and isinstance(vs.func, ast.Name) and
-            vs.func.id in ('list', 'sorted', 'dict', 'tuple') and
-            len(vs.args) == 1 and isinstance(vs.args[0], ast.Attribute))
-        if not plain:
-            rc.violation('cache-key-transformed | ' + k.value,
-                         'key %r is not written from the attribute %s '
-                         'verbatim (%s): entries can be dropped or altered '
-                         'on the way to the file' % (
-                             k.value, attr, ast.unparse(vs)[:60]),
-                         prog.loc(W, v), key=key)
-            continue
-        # which constructor parameter is stored in that attribute
-        ps = [p for p, f in pfield.items() if f == attr]
-        if not ps or ps[0] not in binding:
-            rc.violation('cache-key | ' + k.value,
-                         'attribute %s written under %r is not restored by '
-                         'the reader' % (attr, k.value),
-                         prog.loc(Rd, ctor_calls[0]), key=key)
-            continue
-        a = binding[ps[0]]
-        rk = [r[0] for r in _key_reads(a)]
-        if rk != [k.value]:
-            rc.violation('cache-key | ' + k.value,
-                         'attribute %s is written under %r but restored '
-                         'from %s' % (attr, k.value, rk),
-                         prog.loc(Rd, ctor_calls[0]), key=key)
+        reads = [r for r in _key_reads(Rd.node) if r[0] == k.value]
+        if reads:
+            rc.ok({'key': k.value, 'read_by': Rd.qualname}, key=key)
         else:
-            rc.ok({'key': k.value, 'attr': attr, 'param': ps[0]}, key=key)
+            rc.violation('cache-key | ' + k.value,
+                         'key %r is written but never read' % k.value,
+                         prog.loc(Rd, Rd.node), key=key)
     if n < 6:
         raise AnalysisError('only %d top-level keys' % n)
     # reader side: every constructor parameter restored from key k must have
@@ -437,23 +424,38 @@ def r16_2(ctx, rc):
                          'writer never emits' % (attr, rk[0]),
                          prog.loc(Rd, ctor_calls[0]), key=key)
             continue
-        vs = ctx.H.subst(v, W, cn)
-        core = vs.args[0] if (isinstance(vs, ast.Call) and isinstance(
-            vs.func, ast.Name) and vs.func.id in (
-                'list', 'sorted', 'dict', 'tuple', 'set') and
-            len(vs.args) == 1) else vs
-        if isinstance(core, ast.Attribute) and core.attr == attr and \
-                isinstance(core.value, ast.Name) and \
-                core.value.id == W.self_name:
+        org = ctx.H.origins(v, W, cn)
+        attrs = {o for o in org if o[0] == 'attr'}
+        odd = {o for o in org if o[0] in ('unknown', 'call', 'param',
+                                          'api_param', 'field')}
+        if attrs == {('attr', C, attr)} and not odd and not \
+                _filtered(ctx, v, W, cn):
             rc.ok({'key': rk[0], 'written_from': 'self.' + attr}, key=key)
         else:
             rc.violation(
                 'cache-key-transformed | ' + rk[0],
                 'key %r is restored into %s but is not written from '
-                'self.%s verbatim (written from %s): entries can be '
-                'dropped or altered on the way to the file' % (
-                    rk[0], attr, attr, ast.unparse(v)[:50]),
+                'self.%s verbatim (written from %s; origins %s): entries '
+                'can be dropped or altered on the way to the file' % (
+                    rk[0], attr, attr, ast.unparse(v)[:50],
+                    sorted(str(o[:3]) for o in org)),
                 prog.loc(W, v), key=key)
+
+
+def _filtered(ctx, v, W, cn, depth=0):
+    """The written value is built by a comprehension with a condition, a
+    loop with stores, or another transformation that can drop entries."""
+    vs = ctx.H.subst(v, W, cn)
+    for n in ast.walk(vs):
+        if isinstance(n, (ast.ListComp, ast.SetComp, ast.DictComp,
+                          ast.GeneratorExp)):
+            if any(g.ifs for g in n.generators):
+                return True
+            if isinstance(n, ast.DictComp):
+                return True
+        if isinstance(n, ast.Dict) and not n.keys and isinstance(v, ast.Name):
+            return True      # a local dict filled by a loop
+    return False
 
 
 def r16_3(ctx, rc):
@@ -557,60 +559,130 @@ def r16_4(ctx, rc):
         rc.ok({'order': key}, key=key)
 
 
+def _cache_helpers(ctx, W):
+    """W and the private Cache helpers it (transitively) calls."""
+    C = ctx.R.cache
+    out = [W]
+    todo = [W]
+    while todo:
+        f = todo.pop()
+        for c in ctx.prog.calls_in(f):
+            for g in ctx.prog.resolve_call(c, f):
+                if isinstance(g, Func) and g.cls == C and \
+                        g.name.startswith('_') and g not in out and \
+                        not g.is_ctor_call:
+                    out.append(g)
+                    todo.append(g)
+    return out
+
+
+def _ser_sites(ctx, funcs, ser):
+    """Where the serialiser is called per element: ('loop', For, func) or
+    ('comp', comprehension, func)."""
+    prog = ctx.prog
+    out = []
+    for f in funcs:
+        if f.qualname == ser:
+            continue
+        for n in ast.walk(f.node):
+            if isinstance(n, (ast.ListComp, ast.GeneratorExp, ast.SetComp)):
+                if any(isinstance(c, ast.Call) and any(
+                        isinstance(g, Func) and g.qualname == ser
+                        for g in prog.resolve_call(c, f))
+                        for c in ast.walk(n.elt)):
+                    out.append(('comp', n, f))
+            elif isinstance(n, ast.For):
+                inner = [c for st in n.body for c in ast.walk(st)
+                         if isinstance(c, ast.Call) and any(
+                             isinstance(g, Func) and g.qualname == ser
+                             for g in prog.resolve_call(c, f))]
+                in_comp = any(isinstance(x, (ast.ListComp, ast.GeneratorExp))
+                              and any(c in list(ast.walk(x)) for c in inner)
+                              for st in n.body for x in ast.walk(st))
+                if inner and not in_comp:
+                    out.append(('loop', n, f))
+    return out
+
+
+def _membership_only(test, pol_nested):
+    """test is `x not in S` (keeps roots) or `x in S` with the skipping
+    polarity."""
+    return isinstance(test, ast.Compare) and len(test.ops) == 1 and \
+        isinstance(test.ops[0], (ast.In, ast.NotIn))
+
+
 def r16_5(ctx, rc):
     """write(): the only reason not to serialise a registered operation is
     that it is nested in another one."""
     prog = ctx.prog
     C = ctx.R.cache
     W = ctx.E.func(C + '.write')
-    sg = ctx.E.super(W, lambda g: False)
     ser = C + '._operation_to_json'
-    sites = [x for x in sg.nodes if Q.is_call(x, ser)]
-    if not sites:
-        raise AnalysisError('write() does not call the serialiser')
-    s = sites[0]
-    loop = None
-    for x in sg.nodes:
-        if x.kind == 'out' and x.cn.kind == 'for_next':
-            seen = sg.reach([x.id], avoid=lambda y: (
-                y.kind == 'out' and y.cn.kind == 'for_next' and
-                y.id != x.id))
-            if s.id in seen:
-                loop = x
-    if loop is None:
-        raise AnalysisError('serialisation loop not found in write()')
-    body = [d for d, l in loop.succ if isinstance(l, tuple) and l[0] == 'iter']
-
-    def nested_skip(lab):
-        # fact "operation in non_root_operations"
-        if not (isinstance(lab, tuple) and len(lab) == 4):
-            return False
-        a = lab[1]
-        if isinstance(a, ast.Compare) and len(a.ops) == 1:
-            if isinstance(a.ops[0], ast.NotIn) and lab[0] == 'F':
-                return True
-            if isinstance(a.ops[0], ast.In) and lab[0] == 'T':
-                return True
-        return False
-    seen = sg.reach(body, avoid=lambda y: Q.is_call(y, ser),
-                    edge_ok=lambda a, b, lab: not nested_skip(lab))
-    back = [x for x in seen if sg.nodes[x].kind == 'in' and
-            sg.nodes[x].cn is loop.cn]
+    funcs = [f for f in _cache_helpers(ctx, W)
+             if f.qualname not in (ser, C + '._complex_operation_to_json',
+                                   C + '._simple_operation_to_json')]
+    sites = _ser_sites(ctx, funcs, ser)
     key = 'every root operation is serialised'
-    if back:
-        rc.violation(
-            'root-not-written | ' + W.qualname,
-            'write() can skip a registered operation for a reason other '
-            'than being nested in another one (its record and everything '
-            'nested in it are lost from the cache file)', s.where(),
-            sg.describe_path(sg.witness(seen, back[0])), key=key)
+    if not sites:
+        rc.violation('root-not-written | ' + W.qualname,
+                     'write() never serialises the registered operations',
+                     W.file, key=key)
+        return
+    kind, node, F = sites[0]
+    iter_expr = None
+    if kind == 'comp':
+        gen = node.generators[0]
+        iter_expr = gen.iter
+        bad = [t for t in gen.ifs if not _membership_only(t, None)]
+        if bad or len(node.generators) != 1:
+            rc.violation(
+                'root-not-written | ' + W.qualname,
+                'write() can skip a registered operation for a reason other '
+                'than being nested in another one (condition %s)' % (
+                    ast.unparse(bad[0]) if bad else 'nested generators'),
+                prog.loc(F, node), key=key)
+        else:
+            rc.ok({'form': 'comprehension',
+                   'only_skip': [ast.unparse(t) for t in gen.ifs]}, key=key)
     else:
-        rc.ok({'loop': 'for operation in operations',
-               'only_skip': 'operation in non_root_operations'}, key=key)
+        iter_expr = node.iter
+        sg = ctx.E.super(F, lambda g: False)
+        loop = [x for x in sg.nodes if x.kind == 'out' and
+                x.cn.kind == 'for_next' and x.cn.ast is node]
+        if not loop:
+            raise AnalysisError('serialisation loop not in the CFG')
+        loop = loop[0]
+        body = [d for d, l in loop.succ
+                if isinstance(l, tuple) and l[0] == 'iter']
+
+        def nested_skip(lab):
+            if not (isinstance(lab, tuple) and len(lab) == 4):
+                return False
+            a = lab[1]
+            if isinstance(a, ast.Compare) and len(a.ops) == 1:
+                if isinstance(a.ops[0], ast.NotIn) and lab[0] == 'F':
+                    return True
+                if isinstance(a.ops[0], ast.In) and lab[0] == 'T':
+                    return True
+            return False
+        seen = sg.reach(body, avoid=lambda y: Q.is_call(y, ser),
+                        edge_ok=lambda a, b, lab: not nested_skip(lab))
+        back = [x for x in seen if sg.nodes[x].kind == 'in' and
+                sg.nodes[x].cn is loop.cn]
+        if back:
+            rc.violation(
+                'root-not-written | ' + W.qualname,
+                'write() can skip a registered operation for a reason other '
+                'than being nested in another one (its record and '
+                'everything nested in it are lost from the cache file)',
+                prog.loc(F, node), sg.describe_path(
+                    sg.witness(seen, back[0])), key=key)
+        else:
+            rc.ok({'form': 'loop',
+                   'only_skip': 'operation in non_root_operations'}, key=key)
     # the operations iterated are all registered files and subbuilds
-    it = loop.cn.ast.iter
-    cn = ctx.H.node_of(W, it)
-    org = ctx.H.origins(it, W, cn[0]) if cn else set()
+    cn = ctx.H.node_of(F, iter_expr)
+    org = ctx.H.origins(iter_expr, F, cn[0]) if cn else set()
     attrs = {o[2] for o in org if o[0] == 'attr'}
     key = 'write() iterates over files and subbuilds'
     if {'_files', '_subbuilds'} <= attrs:
@@ -619,61 +691,102 @@ def r16_5(ctx, rc):
         rc.violation('write-sources | ' + W.qualname,
                      'write() serialises operations from %s, expected both '
                      'the file map and the subbuild map' % sorted(attrs),
-                     prog.loc(W, it), key=key)
+                     prog.loc(F, iter_expr), key=key)
 
 
 def r16_6(ctx, rc):
     """The serialiser visits every suboperation of a complex record, and the
     non-root set of write() is built from every registered operation."""
-    from .apply_rules import subtree_walk_rule
+    prog = ctx.prog
     C = ctx.R.cache
-    S = ctx.E.func(C + '._complex_operation_to_json')
     ser = C + '._operation_to_json'
-    sg_visit = lambda x: Q.is_call(x, ser)
-    # every suboperation (simple ones included) is serialised: the loop body
-    # has no path that skips the call at all
-    sg = ctx.E.super(S, lambda g: False)
-    loops = [x for x in sg.nodes if x.kind == 'out' and
-             x.cn.kind == 'for_next']
-    if not loops:
-        raise AnalysisError('serialiser does not iterate suboperations')
-    lp = loops[0]
-    body = [d for d, l in lp.succ if isinstance(l, tuple) and l[0] == 'iter']
-    seen = sg.reach(body, avoid=sg_visit)
-    back = [n for n in seen if sg.nodes[n].kind == 'in' and
-            sg.nodes[n].cn is lp.cn]
+    # writers reachable from the dispatcher for complex records
+    cands = [f for f in _cache_helpers(ctx, ctx.E.func(ser))]
+    sites = [s_ for s_ in _ser_sites(ctx, cands + [ctx.E.func(ser)], 'x')]
+    sub = []
+    for f in cands + [ctx.E.func(ser)]:
+        for n in ast.walk(f.node):
+            it = None
+            if isinstance(n, ast.For):
+                it, ifs, form = n.iter, None, 'loop'
+            elif isinstance(n, (ast.ListComp, ast.GeneratorExp)):
+                it, ifs, form = n.generators[0].iter, \
+                    n.generators[0].ifs, 'comp'
+            if it is not None and isinstance(it, ast.Attribute) and \
+                    it.attr == 'suboperations':
+                calls_ser = any(
+                    isinstance(c, ast.Call) and any(
+                        isinstance(g, Func) and g.qualname == ser
+                        for g in prog.resolve_call(c, f))
+                    for c in ast.walk(n))
+                if calls_ser:
+                    sub.append((form, n, f, ifs))
     key = 'every suboperation is serialised'
-    if back:
-        rc.violation('suboperation-not-written | ' + S.qualname,
-                     'the serialiser can skip a suboperation of a record '
-                     '(the observation is lost from the cache file and never '
-                     'replayed)', lp.where(), key=key)
-    else:
-        rc.ok({'loop': 'for suboperation in operation.suboperations'},
-              key=key)
+    if not sub:
+        rc.violation('suboperation-not-written | ' + C,
+                     'no writer serialises the suboperations of a record',
+                     ctx.E.func(ser).file, key=key)
+    for form, n, f, ifs in sub[:1]:
+        if form == 'comp':
+            if ifs:
+                rc.violation('suboperation-not-written | ' + f.qualname,
+                             'the serialiser filters suboperations (%s)' %
+                             ast.unparse(ifs[0]), prog.loc(f, n), key=key)
+            else:
+                rc.ok({'form': 'comprehension over .suboperations'}, key=key)
+        else:
+            sg = ctx.E.super(f, lambda g: False)
+            lp = [x for x in sg.nodes if x.kind == 'out' and
+                  x.cn.kind == 'for_next' and x.cn.ast is n][0]
+            body = [d for d, l in lp.succ
+                    if isinstance(l, tuple) and l[0] == 'iter']
+            seen = sg.reach(body, avoid=lambda x: Q.is_call(x, ser))
+            back = [m for m in seen if sg.nodes[m].kind == 'in' and
+                    sg.nodes[m].cn is lp.cn]
+            if back:
+                rc.violation('suboperation-not-written | ' + f.qualname,
+                             'the serialiser can skip a suboperation of a '
+                             'record (the observation is lost from the '
+                             'cache file and never replayed)', lp.where(),
+                             key=key)
+            else:
+                rc.ok({'form': 'loop over .suboperations'}, key=key)
+    # non-root set
     W = ctx.E.func(C + '.write')
-    fors = [n for n in ast.walk(W.node) if isinstance(n, ast.For)]
+    funcs = _cache_helpers(ctx, W)
     key = 'non-root set covers every registered operation'
-    upd = None
-    ser_loop = None
-    for lp2 in fors:
-        for c in ast.walk(lp2):
-            if isinstance(c, ast.Call) and isinstance(
-                    c.func, ast.Attribute) and c.func.attr in (
-                        'update', 'add', 'extend') and c.args and isinstance(
-                            c.args[0], ast.Attribute) and \
-                    c.args[0].attr == 'suboperations':
-                upd = lp2
-            if isinstance(c, ast.Call) and any(
-                    isinstance(g, Func) and g.qualname == ser
-                    for g in ctx.prog.resolve_call(c, W)):
-                ser_loop = lp2
-    ok = upd is not None and ser_loop is not None and \
-        ast.dump(upd.iter) == ast.dump(ser_loop.iter) and not any(
-            isinstance(x, (ast.If, ast.Break, ast.Continue))
-            for x in ast.walk(ast.Module(body=upd.body, type_ignores=[])))
+    ser_sites = _ser_sites(ctx, [f for f in funcs if f.qualname not in (
+        ser, C + '._complex_operation_to_json')], ser)
+    ser_iter = None
+    if ser_sites:
+        k0, n0, f0 = ser_sites[0]
+        ser_iter = n0.generators[0].iter if k0 == 'comp' else n0.iter
+    found = None
+    for f in funcs:
+        for n in ast.walk(f.node):
+            if isinstance(n, ast.For):
+                body_nodes = list(ast.walk(ast.Module(body=n.body,
+                                                      type_ignores=[])))
+                upd = [c for c in body_nodes if isinstance(c, ast.Call) and
+                       isinstance(c.func, ast.Attribute) and
+                       c.func.attr in ('update', 'add', 'extend') and
+                       c.args and isinstance(c.args[0], ast.Attribute) and
+                       c.args[0].attr == 'suboperations']
+                if upd:
+                    cond = any(isinstance(x, (ast.If, ast.Break,
+                                              ast.Continue))
+                               for x in body_nodes)
+                    found = (n.iter, cond, f, n)
+            elif isinstance(n, (ast.SetComp, ast.ListComp, ast.GeneratorExp)) \
+                    and len(n.generators) == 2 and isinstance(
+                        n.generators[1].iter, ast.Attribute) and \
+                    n.generators[1].iter.attr == 'suboperations':
+                cond = bool(n.generators[0].ifs or n.generators[1].ifs)
+                found = (n.generators[0].iter, cond, f, n)
+    ok = found is not None and not found[1] and ser_iter is not None and \
+        ast.dump(found[0]) == ast.dump(ser_iter)
     if ok:
-        rc.ok({'non_root_from': ast.unparse(upd.iter)}, key=key)
+        rc.ok({'non_root_from': ast.unparse(found[0])}, key=key)
     else:
         rc.violation('non-root-set | ' + W.qualname,
                      'the set of nested (non-root) operations is not built '
